@@ -27,6 +27,7 @@ func init() {
 type memFile struct {
 	mtime int64
 	dir   bool
+	link  bool // listed as a symbolic link (to a regular file)
 }
 
 type recFS struct {
@@ -83,7 +84,13 @@ func (i memInfo) Sys() any           { return nil }
 
 type memEntry struct{ memInfo }
 
-func (e memEntry) Type() fs.FileMode          { return e.Mode().Type() }
+// a symbolic link to a video is listed as a link (lstat) and opens as the video (stat)
+func (e memEntry) Type() fs.FileMode {
+	if e.f.link {
+		return fs.ModeSymlink
+	}
+	return e.Mode().Type()
+}
 func (e memEntry) Info() (fs.FileInfo, error) { return e.memInfo, nil }
 
 func (f *recFS) Open(name string) (fs.File, error) {
@@ -230,7 +237,7 @@ func gpProc(toks []string) string {
 			p := strings.Split(e, ":")
 			name := unhexStr(p[0])
 			mt, _ := strconv.ParseInt(p[2], 10, 64)
-			mf := &memFile{mtime: mt, dir: p[1] == "d"}
+			mf := &memFile{mtime: mt, dir: p[1] == "d", link: p[1] == "l"}
 			fsys.entries = append(fsys.entries, memEntry{memInfo{name, mf}})
 			if !mf.dir {
 				fsys.files[joinPathModel(src, name)] = mf
@@ -651,6 +658,15 @@ func genGP(cfg *config, r *rng, i int, s *sink) string {
 	}
 	if r.chance(1, 12) {
 		ents = nil
+	}
+	if r.chance(1, 6) {
+		// some of the videos are symbolic links (a library kept elsewhere): files like any other
+		for i := range ents {
+			if r.chance(1, 2) {
+				ents[i] = strings.Replace(ents[i], ":f:", ":l:", 1)
+			}
+		}
+		s.count("gp.symlinks")
 	}
 	l := "~"
 	if len(ents) > 0 {
